@@ -236,7 +236,26 @@ func init() {
 			return c.sprintfModel(a), true
 		},
 		"fmt.Sprint": func(c *FnCtx, f *ssa.Function, a []Val, rt types.Type, pos token.Pos) (Val, bool) {
-			return strVal(c.freshConst("sprint", SStr)), true
+			r := c.freshConst("sprint", SStr)
+			// one operand: a bool prints as "true"/"false", a string as itself (anything else: arbitrary string)
+			if len(a) == 1 && a[0].S == SSlice {
+				c.usedExtern("fmt.Sprint of one operand: bool -> \"true\"/\"false\", string -> itself")
+				hn, _ := c.M.SliceHeap(types.NewInterfaceType(nil, nil))
+				sl := a[0].T
+				el := fmt.Sprintf("(select (select %s (s_ref %s)) (s_off %s))", c.H(hn), sl, sl)
+				c.fact(fmt.Sprintf("(=> (and (= (s_len %s) 1) ((_ is a_bool) %s)) (= %s (ite (a_b %s) %s %s)))", sl, el, r, el, c.strLit("true"), c.strLit("false")))
+				c.fact(fmt.Sprintf("(=> (and (= (s_len %s) 1) ((_ is a_str) %s)) (= %s (a_s %s)))", sl, el, r, el))
+			}
+			return strVal(r), true
+		},
+		"strconv.ParseBool": func(c *FnCtx, f *ssa.Function, a []Val, rt types.Type, pos token.Pos) (Val, bool) {
+			v := c.genericExtern(f, a, rt, pos)
+			if len(a) == 1 && a[0].S == SStr && v.S == "Tuple" && len(v.Tup) == 2 && v.Tup[0].S == SBool {
+				c.usedExtern("strconv.ParseBool: \"true\" -> true, \"false\" -> false")
+				c.fact(fmt.Sprintf("(=> (= %s %s) %s)", a[0].T, c.strLit("true"), v.Tup[0].T))
+				c.fact(fmt.Sprintf("(=> (= %s %s) (not %s))", a[0].T, c.strLit("false"), v.Tup[0].T))
+			}
+			return v, true
 		},
 		"reflect.DeepEqual": func(c *FnCtx, f *ssa.Function, a []Val, rt types.Type, pos token.Pos) (Val, bool) {
 			c.usedExtern("reflect.DeepEqual")
